@@ -88,8 +88,8 @@ var encoders = []encCase{
 }
 
 var (
-	kfLeadingDigit bool
-	kfNumericType  bool // KF-C11-quoted-numeric-type-name
+	kfLeadingDigit     bool
+	kfNumericType      bool // KF-C11-quoted-numeric-type-name
 	kfTypeQuotedDigits bool
 )
 
@@ -200,11 +200,11 @@ func isPlain(s string) bool {
 
 type position struct {
 	name   string
-	nul    bool                         // NUL allowed in this position
-	build  func(s string) *ir.Module    // constructs a module with s at the position through the API
-	text   func(e string) string        // my own rendering of the same module; e = s with every byte as \XX
+	nul    bool                              // NUL allowed in this position
+	build  func(s string) *ir.Module         // constructs a module with s at the position through the API
+	text   func(e string) string             // my own rendering of the same module; e = s with every byte as \XX
 	get    func(m *ir.Module) (string, bool) // reads the string back from a parsed module
-	reject func(s string) bool          // strings outside the position's domain
+	reject func(s string) bool               // strings outside the position's domain
 }
 
 func i32fn(m *ir.Module, name string) *ir.Func {
@@ -232,7 +232,7 @@ var positions = []position{
 		m.NewAlias(s, g)
 		return m
 	}, text: func(e string) string { return "@g = global i32 1\n@\"" + e + "\" = alias i32, i32* @g\n" },
-		get: func(m *ir.Module) (string, bool) { return m.Aliases[0].GlobalName, m.Aliases[0].GlobalName != "" },
+		get:    func(m *ir.Module) (string, bool) { return m.Aliases[0].GlobalName, m.Aliases[0].GlobalName != "" },
 		reject: func(s string) bool { return s == "g" }},
 	{name: "param", build: func(s string) *ir.Module {
 		m := ir.NewModule()
@@ -241,7 +241,9 @@ var positions = []position{
 		b := f.NewBlock("entry")
 		b.NewRet(p)
 		return m
-	}, text: func(e string) string { return "define i32 @f(i32 %\"" + e + "\") {\nentry:\n  ret i32 %\"" + e + "\"\n}\n" },
+	}, text: func(e string) string {
+		return "define i32 @f(i32 %\"" + e + "\") {\nentry:\n  ret i32 %\"" + e + "\"\n}\n"
+	},
 		get: func(m *ir.Module) (string, bool) {
 			p := m.Funcs[0].Params[0]
 			return p.LocalName, p.LocalName != ""
@@ -283,7 +285,9 @@ var positions = []position{
 		t := m.NewTypeDef(name, types.NewStruct(types.I32))
 		m.NewGlobalDef("g", constant.NewZeroInitializer(t))
 		return m
-	}, text: func(e string) string { return "%\"" + e + "\" = type { i32 }\n@g = global %\"" + e + "\" zeroinitializer\n" },
+	}, text: func(e string) string {
+		return "%\"" + e + "\" = type { i32 }\n@g = global %\"" + e + "\" zeroinitializer\n"
+	},
 		get: func(m *ir.Module) (string, bool) {
 			if len(m.TypeDefs) != 1 {
 				return "", false
@@ -308,7 +312,9 @@ var positions = []position{
 		g := m.NewGlobalDef("g", constant.NewInt(types.I32, 1))
 		g.Comdat = c
 		return m
-	}, text: func(e string) string { return "$\"" + e + "\" = comdat any\n@g = global i32 1, comdat($\"" + e + "\")\n" },
+	}, text: func(e string) string {
+		return "$\"" + e + "\" = comdat any\n@g = global i32 1, comdat($\"" + e + "\")\n"
+	},
 		get: func(m *ir.Module) (string, bool) {
 			if len(m.ComdatDefs) != 1 || m.Globals[0].Comdat != m.ComdatDefs[0] {
 				return "", false
